@@ -26,7 +26,7 @@ func VerifC12_NFT() {
 	verifAssert(types.ValidateGenesis(*g) == nil, "the exported genesis passes the module's own validation")
 	e2 := &nfEnv{vEnv: newVEnv(types.StoreKey, 10)}
 	e2.bank.modules[nft.ModuleName] = nil
-	ss := vStoreService{e2.store()}
+	ss := vStoreService{e2.key}
 	k2 := Keeper{storeService: ss, cdc: e2.cdc, nk: nftkeeper.NewKeeper(ss, e2.cdc, nfAccount{e2.acc}, e2.bank)}
 	panicked, what := verifCatch(func() { k2.InitGenesis(e2.ctx, *g) })
 	if panicked {
